@@ -32,6 +32,9 @@
      ut_convert, ut_check, ut_convert_check, ut_iop, follow_shift, rebind_scaled, ut_imul
                                      UniformTime._convert_and_check_uniformity, __iadd__/__isub__,
                                      _follow_shift, __imul__ (after c4c4884, 9a1272e)
+     np_derive, view_of              objects derived through numpy: ufunc results, copy.copy, deepcopy,
+                                     np.copy(subok=True), views (attribute slots by reference)
+     follow_shift_aug, ut_iop_aug    the seeded augmented-assignment variant of _follow_shift (refuted)
      copy_arr, ut_copy_attrs, ut_copy (ut_copy_old)
                                      ndarray.copy + __array_finalize__; UniformTime.copy (after 30eef3b)
      ts_copy, ts_apply, ts_binop, ts_iop   TimeSeries.copy, + - * via copy, += -= *=
@@ -435,6 +438,48 @@ Definition ut_imul (self : loc) (v : pyval) : M unit :=
    copies the attribute slots by reference *)
 Definition copy_arr (l : loc) : M loc :=
   i <- arr_info l ;; new_arr (a_dt i) (a_data i) (a_shape i) (a_kind i).
+
+(* Objects DERIVED from an array through numpy rather than through .copy() / the constructor:
+   the result of a ufunc (`a + 0`, `a - 1`, np.add(a, k), a.astype(..)), copy.copy(a),
+   copy.deepcopy(a), np.copy(a, subok=True), np.array(a, subok=True): a fresh buffer and a fresh
+   header of the same class; __array_finalize__ hands the attribute slots over BY REFERENCE
+   (timeseries.py UniformTime.__array_finalize__: setattr(self, attr, getattr(obj, attr))).
+   g is what the derivation does to the values. *)
+Definition np_derive (g : list Z -> list Z) (x : loc) : M loc :=
+  i <- arr_info x ;; new_arr (a_dt i) (g (a_data i)) (a_shape i) (a_kind i).
+(* a view (a[:], a.view()): a fresh header on the SAME buffer, attribute slots by reference *)
+Definition view_of (x : loc) : M loc :=
+  c <- read x ;;
+  match c with CArr b sh k => alloc (CArr b sh k) | _ => raise EAttr end.
+
+(* _follow_shift with AUGMENTED assignments (`self.t0 += ...`, `self.sampling_interval += dv`,
+   `self.duration += ...`; not the code of the tree: the seeded variant C16_2): a TimeArray has no
+   __iadd__ of its own, so ndarray.__iadd__ overwrites the buffer of the attribute object, which
+   every axis derived through numpy shares *)
+Definition follow_shift_aug (self w : loc) (sign : Z) : M unit :=
+  c <- read self ;;
+  match c with
+  | CArr b sh (KUniform cf t0 si dur) =>
+      i <- arr_info w ;;
+      match a_shape i with
+      | [_] =>
+          match a_data i with
+          | v0 :: v1 :: _ =>
+              x0 <- new_arr I64 [sign * v0]%Z [] (KTime 1) ;; iop_inplace Z.add t0 x0 ;;;
+              let dv := (sign * v1 - sign * v0)%Z in
+              x1 <- new_arr I64 [dv] [] (KTime 1) ;; iop_inplace Z.add si x1 ;;;
+              x2 <- new_arr I64 [Z.of_nat (hd 0%nat sh) * dv]%Z [] (KTime 1) ;; iop_inplace Z.add dur x2
+          | _ => raise EIndex
+          end
+      | _ =>
+          x0 <- new_arr I64 (map (Z.mul sign) (a_data i)) (a_shape i) (KTime 1) ;; iop_inplace Z.add t0 x0
+      end
+  | _ => raise EAttr
+  end.
+Definition ut_iop_aug (sign : Z) (self : loc) (v : pyval) : M unit :=
+  w <- ut_convert_check self sign v ;;
+  iop_inplace (fun a b => a + sign * b)%Z self w ;;;
+  follow_shift_aug self w sign.
 
 (* UniformTime.copy before 30eef3b was ndarray.copy *)
 Definition ut_copy_old (self : loc) : M loc := copy_arr self.
